@@ -363,7 +363,9 @@ func genTransformProg() *rapid.Generator[*ast.Node] {
 			rapid.Just(ast.VarN("")),
 			rapid.Custom(func(t *rapid.T) *ast.Node { return name() }),
 			rapid.Custom(func(t *rapid.T) *ast.Node { return ast.PathN(name(), name()) }),
-			rapid.Custom(func(t *rapid.T) *ast.Node { return ast.PredN(name(), ast.NumN(float64(rapid.IntRange(-1, 1).Draw(t, "i")))) }),
+			rapid.Custom(func(t *rapid.T) *ast.Node {
+				return ast.PredN(name(), ast.NumN(float64(rapid.IntRange(-1, 1).Draw(t, "i"))))
+			}),
 			rapid.Custom(func(t *rapid.T) *ast.Node {
 				return ast.PredN(name(), ast.BinN("=", name(), ast.NumN(float64(rapid.IntRange(0, 2).Draw(t, "v")))))
 			}),
